@@ -110,14 +110,16 @@ pub fn loggers_of(cfg: &LCfg) -> Vec<CLogger> {
         .map(|l| {
             let mut b = CLogger::builder();
             let style = style_of(cfg, &l.name);
-            // `additive` before, between or after the appender calls
-            if style & (1 << 62) != 0 {
+            // `additive` before, between or after the appender calls - or not at all where the wanted value is the
+            // documented default of the builder ("additive is true")
+            let rely_on_default = l.additive && style & (1 << 61) != 0;
+            if style & (1 << 62) != 0 && !rely_on_default {
                 b = b.additive(l.additive);
             }
             for (run, single) in runs_by_style(l.appenders.clone(), style) {
                 b = if single { b.appender(run[0].clone()) } else { b.appenders(run) };
             }
-            if style & (1 << 62) == 0 {
+            if style & (1 << 62) == 0 && !rely_on_default {
                 b = b.additive(l.additive);
             }
             b.build(l.name.clone(), LEVEL_FILTERS[l.level as usize])
